@@ -543,6 +543,19 @@ impl InterfaceInner {
         let src_addr = ipv6_repr.dst_addr;
         let dst_addr = ipv6_repr.src_addr;
 
+        // Per RFC 4443 § 2.4 (e.3), an error message must not be originated as a result
+        // of receiving a packet destined to a multicast address (the two exceptions,
+        // Packet Too Big and Parameter Problem code 2, are for path MTU discovery and
+        // unrecognised options). Echo replies are not errors.
+        if src_addr.is_multicast()
+            && matches!(
+                icmp_repr,
+                Icmpv6Repr::DstUnreachable { .. } | Icmpv6Repr::TimeExceeded { .. }
+            )
+        {
+            return None;
+        }
+
         let src_addr = if src_addr.x_is_unicast() {
             src_addr
         } else {
